@@ -232,6 +232,43 @@ func c11Run(c *engine.Ctx) {
 			}
 		}
 	})
+	// exactly collinear mixed-magnitude triples: the middle point is exactly on the segment
+	mcs := mixedCollinear()
+	c.Parallel(len(mcs), func(i int) {
+		t := mcs[i]
+		S, P, E := [2]float64{t[0], t[1]}, [2]float64{t[2], t[3]}, [2]float64{t[4], t[5]}
+		line := func(a, b, p [2]float64) {
+			c.Count("mixed_magnitude_cases", 1)
+			c11Exec(c, c11Case{Mode: "line", Ring: []ref.F{ref.F(a[0]), ref.F(a[1]), ref.F(b[0]), ref.F(b[1])}, P: []ref.F{ref.F(p[0]), ref.F(p[1])}, Layout: geom.XY})
+		}
+		line(S, E, P)
+		line(E, S, P)
+		line(S, P, E) // E beyond P: not on the segment
+		line(P, E, S)
+		// (ring location is NOT exercised on these float inputs: the quantifier restricts it to
+		// integer grids where coordinate differences are exact - see DESIGN.md section 7.8)
+	})
+	// nearest lattice points to edges whose direction has a long continued fraction (Fibonacci,
+	// Pell): strictly inside / outside by a cross product of 1, never on the edge
+	for _, seq := range cfSequences() {
+		for k := 2; k+1 < len(seq); k++ {
+			a, b, d := seq[k-1], seq[k], seq[k+1]
+			for _, third := range [][2]float64{{0, d}, {b, 0}} {
+				for _, ring := range [][][2]float64{{{0, 0}, {b, d}, third, {0, 0}}, {{b, d}, third, {0, 0}, {b, d}}, {third, {b, d}, {0, 0}, third}} {
+					var r []ref.F
+					for _, q := range ring {
+						r = append(r, ref.F(q[0]), ref.F(q[1]))
+					}
+					for _, q := range [][2]float64{{a, b}, {b - a, d - b}, {2 * a, 2 * b}} {
+						if q[0] >= 0 && q[1] >= 0 {
+							c.Count("continued_fraction_queries", 1)
+							c11Exec(c, c11Case{Mode: "ring", Ring: r, P: []ref.F{ref.F(q[0]), ref.F(q[1])}, Layout: geom.XY})
+						}
+					}
+				}
+			}
+		}
+	}
 	// split-ratio sweep: a point strictly inside a slanted edge, dividing it a:b for all a,b <= 24
 	// in 10 directions (the exact-sign determinant reduces such configurations step by step)
 	dirs := [][2]float64{{1, 1}, {1, 2}, {2, 1}, {1, -1}, {3, 1}, {1, 3}, {2, -3}, {5, 2}, {-3, 7}, {7, -4}}
